@@ -135,6 +135,12 @@ def body(led):
     led.trust('cmverif symbolic executor with abstract arrays (absnp); z3 (LIA) for shape obligations')
     check_freq(led)
     lemma(led)
+    _standin(led)
+
+
+def _standin(led):
+    from . import sparse_standin
+    sparse_standin.check(led, ['remove_null_cols'])
 
 
 def main():
